@@ -229,6 +229,11 @@ pub fn case(t: &mut Tape, ctx: &CaseCtx) -> CaseResult {
                     _ => s.apps[i].version = vec![0, 0, 0, 0],
                 }
             }
+            if t.chance(1, 6) {
+                // the first boot after an update: the previous life left its finish record for the version now running
+                s.storage_init.push(("update_finish_time".into(), SVal::I((s.start_wall_ns / 1000) as i64 - 50_000_000)));
+                s.storage_init.push(("target_version".into(), SVal::S(s.os_version.clone())));
+            }
             run_history(s, &[LifePlan { oneshot: t.chance(1, 10), checks: 1 + t.choose(3), crash_at: None, wall_at_start: None }])
         }
         _ => super::sched::run_scheduled(t, &super::sched::SchedProfile::default()).0,
